@@ -46,7 +46,6 @@ type refModel struct {
 type overrides struct {
 	memb      map[string]map[string]bool // set name -> address -> member?
 	invisible map[string]bool            // pod key -> galaxy has installed nothing for the pod
-	lostNet   map[string]map[string]bool // hash:net set name -> member (as ipset lists it) that is in the set in no role
 }
 
 func (o *overrides) member(set, addr string, truth bool) bool {
@@ -126,10 +125,7 @@ func (m *refModel) peersMatch(pol *Policy, egress bool, idx int, peers []Peer, a
 		return !m.sw.D6
 	}
 	a, _ := ipToU32(addr)
-	var lost map[string]bool
-	if m.over != nil {
-		lost = m.over.lostNet[peerSetName(pol, egress, idx, true)]
-	}
+	var lost map[string]bool // (kept as a parameter of the block evaluators; no switch sets it any more)
 	if m.sw.D13 && mergedBlocksMatch(peers, a, lost) {
 		return true
 	}
@@ -326,6 +322,8 @@ func flows(cl *Cluster, extraEnds ...string) []Flow {
 					out = append(out, Flow{Src: p.IP, Dst: e, Proto: proto, Port: port})
 				}
 			}
+			// a protocol without ports: admitted only by rules that list no ports at all
+			out = append(out, Flow{Src: e, Dst: p.IP, Proto: "icmp"}, Flow{Src: p.IP, Dst: e, Proto: "icmp"})
 		}
 	}
 	return out
